@@ -10,6 +10,7 @@ From Coq Require Import List NArith Bool.
 Import ListNotations.
 From HV Require Import Model.Parse Model.Exec Model.Opt Model.Utf8 Model.Cli Proofs.OptSpec Proofs.UniSpec.
 From HV Require Proofs.CliProofs.
+From HV Require Model.Listing Proofs.Listing2Spec Proofs.Listing2Proofs.
 Open Scope N_scope.
 
 (* for any file bytes, file name class, stdin bytes, level and step budget: never a panic *)
@@ -34,6 +35,16 @@ Theorem C13_diagnostics : forall level b stdin fuel,
   (decode b = None -> run_cli level (FBytes true b) stdin fuel = CDiag DgUtf8File [] []).
 Proof. intros level b stdin fuel. repeat split; try reflexivity. intros H. unfold run_cli. rewrite H. reflexivity. Qed.
 Print Assumptions C13_diagnostics.
+
+(* the layout arithmetic of the listing (`check`, and the debugger's echo with raw = true): usize subtraction is modelled with
+   its failure; no padding width ever underflows, whatever the indices and locations; for `check` on any text the listing exists *)
+Theorem C13_listing_layout_total : forall rawmode fname es,
+  (rawmode = true \/ Forall (fun e => ty (snd e) < 6) es) -> Listing.listing_text rawmode fname es <> None.
+Proof. exact Listing2Proofs.listing_total. Qed.
+Print Assumptions C13_listing_layout_total.
+Theorem C13_check_listing_total : forall fname text, Listing.check_listing fname text <> None.
+Proof. exact Listing2Proofs.check_listing_total. Qed.
+Print Assumptions C13_check_listing_total.
 
 Example C13_examples :
   (* a program that reads a line which is not UTF-8; one that prints an unencodable value; overlong/surrogate files *)
